@@ -34,6 +34,16 @@ def viol(ctx, key: str, what: str, witness: dict, per_key: int = 2):
         ctx.count("repeat:" + key)
 
 
+def ask(ctx, lines: List[str], per_call: int = 100) -> List[str]:
+    """`Driver.ask_many` writes up to 2000 request lines before it reads a reply; with long lines (distance
+    matrix + a 17-step mask trace per reply) that exceeds the pipe buffers in both directions and deadlocks.
+    Ask in small portions instead."""
+    out: List[str] = []
+    for k in range(0, len(lines), per_call):
+        out += ctx.driver.ask_many(lines[k: k + per_call])
+    return out
+
+
 def first_done(d: List[int]):
     return d.index(1) if 1 in d else None
 
@@ -59,7 +69,7 @@ def check_feasibility(ctx, ad, episodes_quick: int = 150, episodes_thorough: int
             viol(ctx, f"{ad.name}:dead-end", "all-False mask row while the batch is running",
                  {"inst": insts[r0], "actions": ep.actions[r0]})
         lines = [ad.line("episode", insts[r], ep.actions[r]) for r in range(B)]
-        replies = ctx.driver.ask_many(lines)
+        replies = ask(ctx, lines)
         for r in range(B):
             f = compare_trace(ctx, ad, insts[r], ep.actions[r], ep.masks[r], ep.done[r], replies[r], "C01 stream")
             ctx.case((ad.name, repr(insts[r]), tuple(ep.actions[r])), nontrivial=len(ep.actions[r]) > 1)
@@ -93,7 +103,7 @@ def check_termination(ctx, ad, episodes_quick: int = 100, episodes_thorough: int
             done_eps += B
             continue
         lines = [ad.line("episode", insts[r], ep.actions[r]) for r in range(B)]
-        replies = ctx.driver.ask_many(lines)
+        replies = ask(ctx, lines)
         for r in range(B):
             f = compare_trace(ctx, ad, insts[r], ep.actions[r], ep.masks[r], ep.done[r], replies[r], "C02 stream")
             d = ep.done[r]
@@ -129,6 +139,55 @@ def check_termination(ctx, ad, episodes_quick: int = 100, episodes_thorough: int
 
 
 # ------------------------------------------------------------------------------------------------
+# C03 (as envcorr.check_reward; an exception raised by the real `_get_reward` is a classified violation)
+# ------------------------------------------------------------------------------------------------
+def check_reward(ctx, ad, episodes_quick: int = 150, episodes_thorough: int = 3000):
+    env = ad.make_env()
+    total = ctx.budget(episodes_quick, episodes_thorough)
+    done_eps = 0
+    while done_eps < total:
+        n = ctx.rng.choice(ad.sizes(ctx.tier))
+        B = ctx.rng.choice([1, 2, 4])
+        insts = make_batch(ad, ctx, n, B)
+        try:
+            td0, ep = run_batch(ctx, ad, env, insts)
+        except EpisodeFailed:
+            done_eps += B
+            continue
+        acts = rl.actions_tensor(ep)
+        done_eps += B
+        try:
+            real = ad.real_reward_ticks(env, ep.td, acts)
+        except ValueError as e:
+            ctx.note(f"{ad.name}: reward not on the exact grid ({e}); case skipped")
+            ctx.count("inexact-skipped")
+            continue
+        except (RuntimeError, IndexError) as e:
+            cause = ad.reward_exception_cause(insts, ep.actions, e)
+            viol(ctx, f"{ad.name}:reward-raises" + (":" + cause if cause else ""),
+                 "the real `_get_reward` raises for a finished mask-confined episode",
+                 {"insts": insts, "actions": ep.actions, "error": str(e)[:200], "cause": cause})
+            ctx.count(f"{ad.name}.reward-raised")
+            continue
+        lines = [ad.line("episode", insts[r], ep.actions[r]) for r in range(B)]
+        replies = ask(ctx, lines)
+        for r in range(B):
+            f = compare_trace(ctx, ad, insts[r], ep.actions[r], ep.masks[r], ep.done[r], replies[r], "C03 stream", trace=False)
+            ctx.case((ad.name, repr(insts[r]), tuple(ep.actions[r])), nontrivial=real[r] != 0)
+            ctx.count(f"{ad.name}.n={n}")
+            ctx.count(f"{ad.name}.kind={insts[r].get('kind')}")
+            if "reward" in f and int(f["reward"]) != real[r]:
+                ctx.disagreement(f"{ad.name}: reward differs",
+                                 {"inst": insts[r], "actions": ep.actions[r], "real": real[r], "model": f["reward"]})
+            if "obj" in f and ad.reward_sign * int(f["obj"]) != real[r]:
+                viol(ctx, f"{ad.name}:reward-ne-objective", "reward of the real env differs from the Spec objective",
+                     {"inst": insts[r], "actions": ep.actions[r], "real_reward_ticks": real[r],
+                      "spec_objective_ticks": int(f["obj"]), "lean_line": lines[r]})
+            ctx.sample({"env": ad.name, "inst": insts[r], "actions": ep.actions[r], "reward_ticks": real[r],
+                        "spec_obj": f.get("obj")})
+
+
+# ------------------------------------------------------------------------------------------------
 # C04
 # ------------------------------------------------------------------------------------------------
 def check_batch_independence(ctx, ad, groups_quick: int = 30, groups_thorough: int = 300):
@@ -150,8 +209,11 @@ def check_batch_independence(ctx, ad, groups_quick: int = 30, groups_thorough: i
             rew_b = ad.real_reward_ticks(env, ep.td, acts)
         except ValueError:
             rew_b = None
+        except (RuntimeError, IndexError) as e:
+            rew_b = None
+            ctx.count(f"{ad.name}.batched-reward-raised")
         lines = [ad.line("episode", insts[r], ep.actions[r]) for r in range(B)]
-        replies = ctx.driver.ask_many(lines)
+        replies = ask(ctx, lines)
         for r in range(B):
             f = compare_trace(ctx, ad, insts[r], ep.actions[r], ep.masks[r], ep.done[r], replies[r],
                               "C04 batched row vs solo model")
@@ -188,6 +250,14 @@ def check_batch_independence(ctx, ad, groups_quick: int = 30, groups_thorough: i
                     rew_s = ad.real_reward_ticks(env, ep1.td, rl.actions_tensor(ep1))[0]
                 except ValueError:
                     rew_s = None
+                except (RuntimeError, IndexError) as e:
+                    rew_s = None
+                    cause = ad.reward_exception_cause([insts[r]], [solo_actions], e)
+                    viol(ctx, f"{ad.name}:batch-dependence:reward-raises-solo" + (":" + cause if cause else ""),
+                         "`_get_reward` returns a value for the row inside the batch but raises for the same instance and "
+                         "actions run alone",
+                         {"inst": insts[r], "solo_actions": solo_actions, "batched_actions": ep.actions[r],
+                          "batched_reward_ticks": rew_b[r], "error": str(e)[:200], "cause": cause})
                 if rew_s is not None and rew_s != rew_b[r]:
                     viol(ctx, f"{ad.name}:batch-dependence:reward",
                                   "reward differs between the solo run and the batched (padded) run",
@@ -212,7 +282,7 @@ def check_completeness(ctx, ad, insts_quick: int = 12, insts_thorough: int = 80,
         inst = ad.gen_instance(ctx.rng, n, ks[g % len(ks)])  # every kind is used, boundary kinds first
         cands = list(ad.enumerate_solutions(inst))
         lines = [ad.line(ad.c05_op, inst, c) for c in cands]
-        replies = ctx.driver.ask_many(lines)
+        replies = ask(ctx, lines)
         feas = []
         for c, rep in zip(cands, replies):
             f = parse_fields(rep)
@@ -224,7 +294,7 @@ def check_completeness(ctx, ad, insts_quick: int = 12, insts_thorough: int = 80,
         if not feas:
             ctx.count(f"{ad.name}.no-feasible-solution")
             continue
-        best_all, best_adm, best_c = None, None, None
+        best_all, best_adm, best_c, best_f = None, None, None, None
         by_len = {}
         for c, f in feas:
             by_len.setdefault(len(c), []).append((c, f))
@@ -272,7 +342,7 @@ def check_completeness(ctx, ad, insts_quick: int = 12, insts_thorough: int = 80,
                     ctx.case((ad.name, repr(inst), tuple(c)))
                     o = int(f["obj"])
                     if best_all is None or o < best_all:
-                        best_all, best_c = o, c
+                        best_all, best_c, best_f = o, c, f
                     if alive[r] and done[r] is not None:
                         best_adm = o if best_adm is None else min(best_adm, o)
                     if alive[r] and done[r] is False:
@@ -284,7 +354,7 @@ def check_completeness(ctx, ad, insts_quick: int = 12, insts_thorough: int = 80,
                     if not alive[r] and f.get("adm") == "1":
                         pass  # already reported above
         if best_adm is None or best_all < best_adm:
-            cause = ad.c05_opt_cause(inst, best_c)
+            cause = ad.c05_opt_cause(inst, best_c, best_f)
             viol(ctx, f"{ad.name}:optimum-hidden" + (":" + cause if cause else ""),
                           "the best objective over the feasible candidates is better than the best one the real mask admits",
                           {"inst": inst, "best_feasible_ticks": best_all, "best_feasible_solution": best_c,
@@ -334,7 +404,7 @@ def check_checker(ctx, ad, episodes_quick: int = 24, episodes_thorough: int = 30
             for lab, inst2, sol in ad.special_cases(ctx.rng, insts[r], ep.actions[r]):
                 cases.append((inst2, lab, sol))
         lines = [ad.check_line(i, lab, s) for (i, lab, s) in cases]
-        replies = ctx.driver.ask_many(lines)
+        replies = ask(ctx, lines)
         for (inst, lab, sol), rep in zip(cases, replies):
             f = parse_fields(rep)
             td1 = env.reset(ad.to_td([inst]))
@@ -351,13 +421,17 @@ def check_checker(ctx, ad, episodes_quick: int = 24, episodes_thorough: int = 30
                                  {"inst": inst, "label": lab, "actions": sol, "real_accepts": acc, "exception": exc,
                                   "model": f["check"]})
             margin_ok = f.get("near", "0") == "0"
+            f["_exc"] = exc or ""
+            # a cause is attributed only when the faithful model reproduces the real verdict: a checker that
+            # deviates from the modelled one is never explained by a known defect
+            explained = (f["check"] == "1") == acc
             if f.get("feas") == "1" and not acc:
-                cause = ad.classify("rejects-feasible", inst, lab, sol, f)
+                cause = ad.classify("rejects-feasible", inst, lab, sol, f) if explained else ""
                 viol(ctx, f"{ad.name}:checker-rejects-feasible" + (":" + cause if cause else ""),
                               "the real checker raises for a solution that is feasible by the Lean Spec",
                               {"inst": inst, "label": lab, "actions": sol, "exception": exc, "cause": cause})
             if f.get("feas") == "0" and acc and margin_ok:
-                cause = ad.classify("accepts-infeasible", inst, lab, sol, f)
+                cause = ad.classify("accepts-infeasible", inst, lab, sol, f) if explained else ""
                 viol(ctx, f"{ad.name}:checker-accepts-infeasible" + (":" + cause if cause else ""),
                               "the real checker accepts a solution that is infeasible by the Lean Spec",
                               {"inst": inst, "label": lab, "actions": sol, "cause": cause})
